@@ -1,0 +1,101 @@
+//go:build verif
+
+package linter
+
+import (
+	"fmt"
+	"go/ast"
+	"math/rand"
+	"os"
+	"runtime"
+	"strconv"
+	"sync"
+	"time"
+)
+
+// Verification hook (build tag verif): brackets every FileWalker.WalkFile call with
+// begin/end events. It records a trace if VERIF_TRACE names a file and perturbs the
+// schedule *between* checker runs if VERIF_SCHED_SEED is set. An in-process harness can
+// install VerifOnWalk to observe the same events.
+
+// VerifOnWalk, if non-nil, is called at the begin ("B") and end ("E") of every WalkFile.
+var VerifOnWalk func(checker, filename, phase string)
+
+var verifState struct {
+	once  sync.Once
+	mu    sync.Mutex
+	seq   int64
+	trace *os.File
+	rng   *rand.Rand
+}
+
+func verifInit() {
+	if p := os.Getenv("VERIF_TRACE"); p != "" {
+		f, err := os.OpenFile(p, os.O_CREATE|os.O_WRONLY|os.O_APPEND, 0o644)
+		if err == nil {
+			verifState.trace = f
+		}
+	}
+	if s := os.Getenv("VERIF_SCHED_SEED"); s != "" {
+		if n, err := strconv.ParseInt(s, 10, 64); err == nil {
+			verifState.rng = rand.New(rand.NewSource(n))
+		}
+	}
+}
+
+func verifEvent(c *Checker, phase string) {
+	verifState.once.Do(verifInit)
+	if verifState.trace == nil && verifState.rng == nil && VerifOnWalk == nil {
+		return
+	}
+	name, file, ctxID := "", "", ""
+	if c != nil && c.Info != nil {
+		name = c.Info.Name
+	}
+	if c != nil && c.ctx.Context != nil {
+		file = c.ctx.Context.Filename
+		ctxID = fmt.Sprintf("%p", c.ctx.Context)
+	}
+	action := 0
+	verifState.mu.Lock()
+	verifState.seq++
+	seq := verifState.seq
+	if verifState.rng != nil {
+		action = verifState.rng.Intn(8)
+	}
+	if verifState.trace != nil {
+		fmt.Fprintf(verifState.trace, "{\"seq\":%d,\"ctx\":%q,\"checker\":%q,\"file\":%q,\"phase\":%q}\n", seq, ctxID, name, file, phase)
+	}
+	verifState.mu.Unlock()
+	if VerifOnWalk != nil {
+		VerifOnWalk(name, file, phase)
+	}
+	switch action {
+	case 1, 2:
+		runtime.Gosched()
+	case 3:
+		for i := 0; i < 5; i++ {
+			runtime.Gosched()
+		}
+	case 4:
+		time.Sleep(time.Duration(seq%3) * time.Millisecond)
+	}
+}
+
+type verifWalker struct {
+	c     *Checker
+	inner FileWalker
+}
+
+func (w *verifWalker) WalkFile(f *ast.File) {
+	verifEvent(w.c, "B")
+	defer verifEvent(w.c, "E")
+	w.inner.WalkFile(f)
+}
+
+func verifWrapWalker(c *Checker, w FileWalker) FileWalker {
+	if w == nil {
+		return w
+	}
+	return &verifWalker{c: c, inner: w}
+}
